@@ -358,11 +358,12 @@ func C05(c *mc.Ctx) {
 	opsH := []string{"b:c1", "b:c2", "b:c3", "r:c1:s", "r:c2:s", "r:c2:f", "empty"}
 	cfgs := []cfg{{"G", 0, 5, opsG}, {"G", 2, 5, opsG}, {"F", 2, 4, opsF}, {"H", 0, 5, opsH}}
 	if c.Quick() {
-		cfgs = []cfg{{"G", 0, 4, opsG}, {"G", 2, 4, opsG}, {"F", 2, 4, opsF}, {"H", 0, 4, opsH}}
+		// H at depth 5 over the ops that matter for "two succeeded children on two chains, then a third fails"
+		cfgs = []cfg{{"G", 0, 4, opsG}, {"G", 2, 4, opsG}, {"F", 2, 4, opsF}, {"H", 0, 4, opsH}, {"H", 0, 5, []string{"b:c1", "b:c2", "b:c3", "r:c1:s", "r:c2:s", "r:c2:f"}}}
 	}
 	for _, k := range cfgs {
 		k := k
-		b := &mc.BFS{C: c, Name: fmt.Sprintf("icmc-%s-T%d", k.group, k.T), MaxDepth: k.depth,
+		b := &mc.BFS{C: c, Name: fmt.Sprintf("icmc-%s-T%d-d%d", k.group, k.T, k.depth), MaxDepth: k.depth,
 			Init:    func() mc.Instance { return newC05Inst(k.group, k.T) },
 			Enabled: func(x mc.Instance, d int) []string { return k.ops },
 			Apply: func(x mc.Instance, op string, path []string) (bool, bool) {
